@@ -73,7 +73,7 @@ func checkC12(p *Prog, r *Report) {
 	/* 1. Wiring table. */
 	oneShellFlag := "one-shell"
 	if pk := p.Pkg(hsrvPkg); nil != pk {
-		if c, ok := pk.Types.Scope().Lookup("OneShellFlag").(*types.Const); ok {
+		if c, ok := lookupObj(pk, "OneShellFlag").(*types.Const); ok {
 			oneShellFlag = strings.Trim(c.Val().ExactString(), `"`)
 		}
 	}
@@ -288,7 +288,7 @@ func checkC12(p *Prog, r *Report) {
 		sels := selectsIn(w)
 		evT := types.Type(nil)
 		if pk := p.Pkg(iobPkg); nil != pk {
-			if o := pk.Types.Scope().Lookup("EventType"); nil != o {
+			if o := lookupObj(pk, "EventType"); nil != o {
 				evT = o.Type()
 			}
 		}
